@@ -393,12 +393,15 @@ func genKind(r *Rng, c *GenCfg, kind string, depth int) *Node {
 		if c.Widths && r.P(0.25) {
 			switch kind {
 			case "int":
-				n.W = "64"
+				n.W = Pick(r, []string{"64", "64", "32"})
 			case "float":
 				n.W = "32"
 			}
 		}
 		n.Req = r.P(c.PReq)
+		if !n.Req && r.P(0.12) {
+			n.OptCall = true
+		}
 		if r.P(c.PDef) {
 			v := genTyped(r, kind)
 			n.Def = &v
@@ -448,6 +451,9 @@ func genKind(r *Rng, c *GenCfg, kind string, depth int) *Node {
 		genPTs(r, c, n)
 	case "slice":
 		n.Req = r.P(c.PReq)
+		if !n.Req && r.P(0.12) {
+			n.OptCall = true
+		}
 		genReqOpt(r, c, n)
 		n.Elem = GenNode(r, c, depth+1, false)
 		if r.P(c.PDef) && n.Elem.IsPrim() {
@@ -459,6 +465,15 @@ func genKind(r *Rng, c *GenCfg, kind string, depth int) *Node {
 		}
 		genTests(r, c, n)
 		genPTs(r, c, n)
+		if c.Coercers && n.Elem.IsPrim() && r.P(0.12) {
+			// z.Slice(elem, z.WithCoercer(f)): what a non-list input becomes
+			n.Coercer = Pick(r, []string{"const", "const", "fail"})
+			l := VL()
+			for i := 0; i < 1+r.Intn(2); i++ {
+				l.L = append(l.L, genTyped(r, n.Elem.Kind))
+			}
+			n.CoVal = &l
+		}
 	case "ptr":
 		n.Req = r.P(c.PReq)
 		genReqOpt(r, c, n)
@@ -578,7 +593,7 @@ func GenParseInput(r *Rng, c *GenCfg, n *Node) (v Val, missing bool) {
 		}
 		return m, false
 	case "slice":
-		if r.P(0.08) && n.Elem.IsPrim() {
+		if (r.P(0.08) || (n.Coercer != "" && r.P(0.6))) && n.Elem.IsPrim() {
 			// scalar boxing
 			ev, _ := GenParseInput(r, &GenCfg{PValid: c.PValid, NoCoerceVariants: true}, n.Elem)
 			if !ev.IsNil() && !(ev.K == "s" && isBlank(ev.S)) {
@@ -805,7 +820,11 @@ func GenValidateInput(r *Rng, c *GenCfg, n *Node, full bool) Val {
 		}
 		return v
 	case "pre":
-		return GenValidateInput(r, c, n.Elem, full)
+		v := GenValidateInput(r, c, n.Elem, full)
+		if n.CT != "str_list" && v.K == "s" && r.P(0.1) {
+			v.S = "ERR" + v.S // the preprocess function returns an error for this value, in Validate as in Parse
+		}
+		return v
 	}
 	return VNil()
 }
